@@ -217,6 +217,23 @@ func nsRemoteOK(offsets []int, n int) bool {
 	})
 }
 
+// nsTarget: j is the start offset named by some remote entry of offsets.
+//
+//@ spec nsTarget
+func nsTarget(offsets []int, j int) bool {
+	return vExists(0, len(offsets), func(i int) bool { return offsets[i] < 0 && offsets[i] != invalidOffset && ^offsets[i] == j })
+}
+
+// nsWindowQuoted: every remote name offset at or above lo points at a '"' (it
+// has not been invalidated), so copyQuotedBuffer restores nothing at or above lo.
+//
+//@ spec nsWindowQuoted
+func nsWindowQuoted(offsets []int, b []byte, lo int) bool {
+	return vForall(0, len(offsets), func(i int) bool {
+		return offsets[i] >= 0 || offsets[i] == invalidOffset || ^offsets[i] < lo || (^offsets[i] < len(b) && b[^offsets[i]] == '"')
+	})
+}
+
 //@ func (*objectNameStack).copyQuotedBuffer
 //@ property C05 C07 C16 C20
 //@ requires ns != nil && nsLocalOK(ns.offsets, ns.unquotedNames) && nsRemoteOK(ns.offsets, len(b))
@@ -227,6 +244,7 @@ func nsRemoteOK(offsets []int, n int) bool {
 //@ ensures depth: len(ns.offsets) == old(len(ns.offsets))
 //@ ensures alias: sameOrFresh(ns.unquotedNames, old(ns.unquotedNames))
 //@ ensures quoted-unchanged: old(nsQuoted(ns.offsets, b)) ==> unchanged(b)
+//@ ensures targets-only: vForall(0, len(b), func(j int) bool { return b[j] == old(b[j]) || old(nsTarget(ns.offsets, j)) })
 //@ ensures buffer: vForall(0, len(b), func(j int) bool { return b[j] == old(b[j]) || (old(b[j]) == invalidateBufferByte && b[j] == '"') })
 //@ loop 0 invariant -1 <= i && i < len(ns.offsets) && vForall(i+1, len(ns.offsets), func(k int) bool { return ns.offsets[k] < 0 })
 //@ loop 0 decreases i + 1
@@ -236,6 +254,7 @@ func nsRemoteOK(offsets []int, n int) bool {
 //@ loop 1 invariant buffer: vForall(0, len(b), func(j int) bool { return b[j] == old(b[j]) || (old(b[j]) == invalidateBufferByte && b[j] == '"') })
 //@ loop 1 invariant distinct: distinctArrays(ns.unquotedNames, b)
 //@ loop 1 invariant quoted-unchanged: old(nsQuoted(ns.offsets, b)) ==> unchanged(b)
+//@ loop 1 invariant targets-only: vForall(0, len(b), func(j int) bool { return b[j] == old(b[j]) || old(nsTarget(ns.offsets, j)) })
 //@ loop 1 invariant alias: sameOrFresh(ns.unquotedNames, old(ns.unquotedNames))
 //@ loop 1 decreases len(ns.offsets) - i
 
@@ -419,6 +438,7 @@ func nsRemoteOK(offsets []int, n int) bool {
 //@ requires nss != nil && len(*nss) > 0
 //@ modifies *nss
 //@ ensures depth: len(*nss) == old(len(*nss))-1
+//@ ensures alias: sameOrFresh(*nss, old(*nss))
 //@ ensures below: vForall(0, len(*nss), func(i int) bool { return sameValue((*nss)[i], old((*nss)[i])) })
 
 //@ func (*state).reset
